@@ -1,2 +1,45 @@
-From AV Require Import Base Utf8 Json Codec Conn.
-Theorem C05_placeholder : True. Proof. exact I. Qed.
+(* C05 - No byte sequence from the peer can crash or wedge message processing.
+   Model: model/Conn.v receive_message (jsonrpc.py:708-738) over lib/Json.v + model/Codec.v.
+   What _message_to_payload does on each kind of decoder failure (invalid UTF-8, invalid JSON,
+   nesting beyond the recursion limit, integers beyond the digit limit) is not hand-written: it
+   is the table measured from the running code (gen/Gen_jsonrpc.v). *)
+From AV Require Import Base Utf8 Json Gen_jsonrpc Codec Conn ConnProofs.
+
+Theorem C05_decoder_failure_table :
+  dfail_utf8 = Some (-32700)%Z /\ dfail_json = Some (-32700)%Z /\
+  dfail_deep = Some (-32700)%Z /\ dfail_digits = Some (-32700)%Z.
+Proof. repeat split. Qed.
+
+(* for EVERY byte string, connection state and protocol class (incl. auto-detection not yet
+   settled): a list of items, a completed awaitable, or a ProtocolError - nothing else *)
+Theorem C05_receive_total : forall c msg, fst (receive_message c msg) <> REscape.
+Proof. exact receive_total. Qed.
+
+(* a ProtocolError without an error reply for the peer arises only when the bytes were a
+   response (a dict without "method", or a batch of response payloads) *)
+Theorem C05_reply_unless_response : forall c msg code c',
+  receive_message c msg = (RProtoErr code None, c') ->
+  exists m, message_to_payload msg = inl m /\ response_like m = true.
+Proof. exact silent_error_only_for_responses. Qed.
+
+(* every error reply is a well-formed error response of the protocol's wire format
+   (payload level; its bytes are printable ASCII by C04) *)
+Theorem C05_error_reply_wellformed : forall p code rid,
+  err_reply p code rid = encode_payload (error_payload p (JInt code) [] rid) /\
+  getn k_id (error_payload p (JInt code) [] rid) = rid.
+Proof. intros p code rid. split; [reflexivity|destruct p; reflexivity]. Qed.
+
+(* session level: the message loop survives every sequence of messages *)
+Theorem C05_never_wedged : forall msgs c, fst (serve c msgs) = true.
+Proof. exact never_wedged. Qed.
+
+Example C05_ex :
+  fst (receive_message (new_conn (Some V1)) (print (JObj [(k_result, JInt 1); (k_error, JNull); (k_id, JArr [])])))
+  = RProtoErr (-32600)%Z None.
+Proof. vm_compute. reflexivity. Qed.
+
+Print Assumptions C05_decoder_failure_table.
+Print Assumptions C05_receive_total.
+Print Assumptions C05_reply_unless_response.
+Print Assumptions C05_error_reply_wellformed.
+Print Assumptions C05_never_wedged.
